@@ -117,8 +117,9 @@ func depTasks(t *exec.Task) []*exec.Task {
 type env struct {
 	lostBudget int  // number of LOST outcomes the environment may choose
 	allowErr   bool // environment may choose a fatal error
-	chaos      int  // number of times a completed (OK) task may be lost later
+	chaos      int  // number of times a completed (OK) task may be lost later (at any harness step)
 	alwaysLost bool // every run is lost (consecutive-loss limit scenario)
+	seq        int  // number of sequential evaluations by the main thread (default 1)
 }
 
 var monitorKey uintptr = 0x5eed
@@ -127,6 +128,8 @@ type hexec struct {
 	g          *graph
 	env        env
 	lostLeft   int
+	chaosLeft  int
+	row        map[*exec.Task]int // consecutive lost runs per task, as the evaluator sees them
 	running    map[*exec.Task]bool
 	everOK     map[*exec.Task]bool // task has been OK at some point (incl. entry)
 	stableOK   map[*exec.Task]bool // OK at entry and never lost since
@@ -145,7 +148,7 @@ func (*hexec) Eventer() eventlog.Eventer                 { return eventlog.Nop{}
 func (*hexec) HandleDebug(*http.ServeMux)                {}
 
 func newHexec(g *graph, e env) *hexec {
-	h := &hexec{g: g, env: e, lostLeft: e.lostBudget, running: map[*exec.Task]bool{}, everOK: map[*exec.Task]bool{},
+	h := &hexec{g: g, env: e, lostLeft: e.lostBudget, chaosLeft: e.chaos, row: map[*exec.Task]int{}, running: map[*exec.Task]bool{}, everOK: map[*exec.Task]bool{},
 		stableOK: map[*exec.Task]bool{}, handouts: map[*exec.Task]int{}, strictDeps: e.chaos == 0}
 	for _, t := range g.tasks {
 		if exec.VerifC03State(t) == exec.TaskOk {
@@ -195,6 +198,7 @@ func (h *hexec) Run(task *exec.Task) {
 	if st := exec.VerifC03State(task); st != exec.TaskWaiting {
 		vsched.Fail("task %s handed to the executor in state %s (want WAITING)", tname(task), st)
 	}
+	h.maybeChaos("start:" + tname(task))
 	depsOK := true
 	for _, d := range depTasks(task) {
 		st := exec.VerifC03State(d)
@@ -213,6 +217,7 @@ func (h *hexec) Run(task *exec.Task) {
 		vsched.Fail("task %s handed out although no root needs it", tname(task))
 	}
 	task.Set(exec.TaskRunning)
+	h.maybeChaos("running:" + tname(task))
 	// environment decides the outcome
 	outcome := 0
 	switch {
@@ -222,14 +227,17 @@ func (h *hexec) Run(task *exec.Task) {
 		outcome = 1 // a run whose inputs are gone can only be lost
 	default:
 		n := 1
-		if h.lostLeft > 0 {
+		// A chosen loss must keep the task's run of consecutive losses (chosen ones, plus
+		// the forced ones that later chaos losses can still cause) below the evaluator's limit.
+		canLose := h.lostLeft > 0 && h.row[task]+1+h.env.chaos < exec.VerifC03MaxConsecutiveLost
+		if canLose {
 			n = 2
 		}
 		if h.env.allowErr {
 			n = 3
 		}
 		c := vsched.Choose("outcome:"+tname(task), n)
-		if c == 1 && h.lostLeft == 0 {
+		if c == 1 && !canLose {
 			c = 0
 		}
 		outcome = c
@@ -239,8 +247,10 @@ func (h *hexec) Run(task *exec.Task) {
 	switch outcome {
 	case 0:
 		h.everOK[task] = true
+		h.row[task] = 0
 		task.Set(exec.TaskOk)
 	case 1:
+		h.row[task]++
 		if depsOK && !h.env.alwaysLost {
 			h.lostLeft--
 		}
@@ -254,20 +264,33 @@ func (h *hexec) Run(task *exec.Task) {
 
 func tname(t *exec.Task) string { return fmt.Sprintf("%s%d", t.Name.Op, t.Name.Shard) }
 
-// chaosThread loses completed tasks at arbitrary moments.
-func (h *hexec) chaosThread(done func() bool) {
-	vsched.Daemon()
-	for k := 0; k < h.env.chaos; k++ {
-		c := vsched.Choose("chaos", len(h.g.tasks)+1)
-		if c == len(h.g.tasks) || done() {
-			return
+// maybeChaos is an environment step: a completed (OK) task may be lost now (its machine
+// died). It is a Choose point of the calling thread, so every placement of the loss at
+// every harness step is enumerated without costing scheduling deviations.
+func (h *hexec) maybeChaos(site string) {
+	vsched.Touch(monitorKey)
+	if h.chaosLeft == 0 {
+		return
+	}
+	var cands []*exec.Task
+	for _, t := range h.g.tasks {
+		if exec.VerifC03State(t) == exec.TaskOk {
+			cands = append(cands, t)
 		}
-		t := h.g.tasks[c]
-		if t.State() == exec.TaskOk {
-			vsched.Touch(monitorKey)
-			h.stableOK[t] = false
-			t.Set(exec.TaskLost)
-		}
+	}
+	if len(cands) == 0 {
+		return
+	}
+	c := vsched.Choose("chaos@"+site, len(cands)+1)
+	if c == 0 {
+		return
+	}
+	t := cands[c-1]
+	vsched.Touch(monitorKey)
+	h.chaosLeft--
+	h.stableOK[t] = false
+	if t.State() == exec.TaskOk {
+		t.Set(exec.TaskLost)
 	}
 }
 
@@ -335,6 +358,11 @@ func makeScenario(gname, init, envName string, evals int) *mc.Scenario {
 		e = env{chaos: 1, lostBudget: 1}
 	case "alwayslost":
 		e = env{alwaysLost: true}
+	case "rows":
+		// many losses, but never maxConsecutiveLost in a row; two sequential evaluations with a loss in between
+		e = env{lostBudget: 6, chaos: 1, seq: 2}
+	case "seq2chaos1":
+		e = env{chaos: 1, seq: 2, lostBudget: 1}
 	default:
 		panic("env " + envName)
 	}
@@ -361,14 +389,27 @@ func makeScenario(gname, init, envName string, evals int) *mc.Scenario {
 		st.h = h
 		st.errs = make([]error, evals)
 		finished := 0
-		if e.chaos > 0 {
-			vsched.Go("chaos", func() { h.chaosThread(func() bool { return finished == evals }) })
-		}
 		if evals == 1 {
-			err := exec.Eval(context.Background(), h, g.roots, nil)
-			st.errs[0] = err
+			n := e.seq
+			if n == 0 {
+				n = 1
+			}
+			for k := 0; k < n; k++ {
+				if k == 0 {
+					h.maybeChaos("before-eval")
+				}
+				if k > 0 {
+					h.maybeChaos("between-evals")
+					// a new invocation: what was OK and still is counts as reused
+					for _, t := range g.tasks {
+						h.stableOK[t] = exec.VerifC03State(t) == exec.TaskOk
+					}
+				}
+				err := exec.Eval(context.Background(), h, g.roots, nil)
+				st.errs[0] = err
+				h.checkReturn(err, g.roots)
+			}
 			finished++
-			h.checkReturn(err, g.roots)
 		} else {
 			var wg vsched.WaitGroup
 			for k := 0; k < evals; k++ {
@@ -555,6 +596,14 @@ func buildPlans(thorough bool) []planSpec {
 	add("chain2", "II", "alwayslost", 1, true, b)
 	add("chain2", "OI", "alwayslost", 1, true, b)
 	add("single", "I", "alwayslost", 2, true, b-1)
+	// many non-consecutive losses, sequential evaluations reusing the tasks
+	for _, g := range []string{"single", "chain2"} {
+		fresh := strings.Repeat("I", specByName(g).ntasks)
+		add(g, fresh, "rows", 1, true, b-1)
+		add(g, fresh, "seq2chaos1", 1, true, b)
+	}
+	add("chain3", "III", "seq2chaos1", 1, true, b-1)
+	add("diamond", "IIII", "seq2chaos1", 1, true, b-1)
 	return ps
 }
 
